@@ -88,18 +88,18 @@ def run(run, replay=None):
     cid = 0
     cases.append(observe(cid, [], False)); cid += 1
     cases.append(observe(cid, [], True)); cid += 1
-    plans = [(4, 18), (5, 9)] if quick else [(5, 18), (7, 9)]
+    plans = [(4, 18), (5, 9)] if quick else [(4, 18), (5, 12), (6, 9)]
     for ig in (False, True):
         for ml, ns in plans:
             behs = gen.behaviours('Gen_Hunks', {'MaxLines': ml, 'NSyms': ns, 'Ignore': 'TRUE' if ig else 'FALSE'},
                                   run=run, timeout=1200)
-            if len(behs) > (40000 if quick else 600000):
-                behs = rng.sample(behs, 40000 if quick else 600000)
+            if len(behs) > (40000 if quick else 150000):
+                behs = rng.sample(behs, 40000 if quick else 150000)
             for b in behs:
                 lines = [SYMS[k - 1] for k in b['h']]
                 cases.append(observe(cid, lines, ig)); cid += 1
                 run.count((tuple(b['h']), ig), nontrivial=any(k <= 5 for k in b['h']))
-                if not b['live'] and (not quick or rng.random() < 0.15):
+                if not b['live'] and rng.random() < (0.15 if quick else 0.25):
                     for k in range(1, 19):
                         cases.append(observe(cid, lines + [SYMS[k - 1]], ig)); cid += 1
                         run.evaluations += 1
